@@ -23,7 +23,7 @@ RULE = ('harness-written weather files (uniform / affine-in-(p,lat,lon) u,v fiel
         'inside the pressure-level range, positions inside the domain, azimuth given or '
         'taken from the ground-track point; oracle |air + wind| with air = TAS(sin h, cos h); '
         'sub-checks: no wind -> TAS, pure tail/head wind adds/subtracts fully, joint '
-        'rotation invariance, ||TAS|-W| <= gs <= TAS+W, hour selection, refusal outside '
+        'rotation invariance, ||TAS|-W| <= gs <= TAS+W, hour selection, one object queried for several dates / a date whose file is missing (refused, also when retried, correct once the file exists), refusal outside '
         'lat/lon/pressure domain; class = (field kind, time axis, heading class, sub-check)')
 ASSUMPTIONS = [
     'wind fields are affine in (pressure, latitude, longitude), so exact under trilinear '
@@ -51,7 +51,8 @@ def required(tier):
                         'refused:lon', 'refused:pressure', 'field:uniform', 'field:affine',
                         'time-axis:yes', 'time-axis:no', 'heading:cardinal',
                         'heading:diagonal', 'heading:generic', 'azimuth:explicit',
-                        'azimuth:from-track-point', 'history:same-hour-different-date'],
+                        'azimuth:from-track-point', 'history:same-hour-different-date',
+                        'history:missing-day-retried-then-file-arrives'],
             'evaluations': 800}
 
 
@@ -302,6 +303,36 @@ def run_shard(spec, rec):
                               'different date (heading 45: independent of the known defect)',
                               {'k': k, 'day': day, 'hour': hour, 'u': uq, 'v': vq})
                     rec.cls('history:same-hour-different-date')
+                # ---- one Weather object: a day whose file is missing, retried, file arrives ----
+                la, lo_ = (lat_lo + lat_hi) / 2, (lon_lo + lon_hi) / 2
+                hour = rng.randint(0, 23)
+                t_ok = pd.Timestamp(f'2024-03-05T{hour:02d}:20:00Z')
+                t_missing = pd.Timestamp(f'2024-03-09T{hour:02d}:20:00Z')
+                u0, v0 = fld.uv(500.0, la, lo_, hour if timed else 0)
+                g0 = query(wx, t_ok, la, lo_, h_of_p(500.0), 170.0, 45.0, True)
+                judge(g0, 170.0, 45.0, u0, v0, 'before a missing day (heading 45)', {'k': k})
+                for attempt in (1, 2):               # the retry must be refused as well
+                    rec.ev()
+                    try:
+                        gm = query(wx, t_missing, la, lo_, h_of_p(500.0), 170.0, 45.0, True)
+                        raise Mismatch('a day without weather file was answered (with another '
+                                       'day\'s winds) instead of refused',
+                                       {'k': k, 'attempt': attempt, 'got': gm,
+                                        'value_for_previous_day': g0})
+                    except Mismatch:
+                        raise
+                    except Exception:  # noqa: BLE001
+                        pass
+                fld_c = Field(rng, 'uniform', timed)
+                write_file_same_grid(d / '20240309.nc', fld_c, lat_lo, lat_hi, lon_lo, lon_hi)
+                uc, vc = fld_c.uv(500.0, la, lo_, hour if timed else 0)
+                gc_ = query(wx, t_missing, la, lo_, h_of_p(500.0), 170.0, 45.0, True)
+                judge(gc_, 170.0, 45.0, uc, vc, 'same time stamp after its weather file arrived '
+                      '(heading 45)', {'k': k, 'u': uc, 'v': vc, 'previous_day_value': g0})
+                g0b = query(wx, t_ok, la, lo_, h_of_p(500.0), 170.0, 45.0, True)
+                judge(g0b, 170.0, 45.0, u0, v0, 'back to the first day after a failed load '
+                      '(heading 45)', {'k': k})
+                rec.cls('history:missing-day-retried-then-file-arrives')
                 # ---- refusals outside the domain --------------------------------------------
                 t = pd.Timestamp('2024-03-05T10:00:00Z')
                 mid = ((lat_lo + lat_hi) / 2, (lon_lo + lon_hi) / 2, h_of_p(500.0))
